@@ -158,6 +158,14 @@ func init() {
 		p.logs["dec.queue"] = q[1:]
 		out := a[1].(Iface)
 		opt, isPtr := out.T.Underlying().(*types.Pointer)
+		if isPtr && item.T == nil {
+			if mark, _ := item.V.(string); mark == "msgpack-nil" {
+				// a msgpack nil decodes into anything without an error: the target becomes its zero value
+				// (a nil pointer for a pointer target)
+				storeInPlace(out.V.(Ptr), p.e.zero(opt.Elem()))
+				return Iface{}
+			}
+		}
 		if !isPtr || item.T == nil {
 			return p.errorValue(p.e.strOf("decode error (stub)"))
 		}
@@ -176,6 +184,10 @@ func init() {
 	intrinsics["vfQueueDecode"] = func(p *Path, fr *frame, a []Value) Value {
 		ifc := a[0].(Iface)
 		p.logs["dec.queue"] = append(p.logs["dec.queue"], Iface{T: ifc.T, V: deepCopy(ifc.V, map[Ptr]Ptr{})})
+		return nil
+	}
+	intrinsics["vfQueueDecodeNil"] = func(p *Path, fr *frame, a []Value) Value {
+		p.logs["dec.queue"] = append(p.logs["dec.queue"], Iface{T: nil, V: "msgpack-nil"})
 		return nil
 	}
 	intrinsics["vfDecodeQueueLen"] = func(p *Path, fr *frame, a []Value) Value {
